@@ -1,38 +1,9 @@
 package bn
 
-import (
-	"math/big"
-	"testing"
-	"time"
-)
+import "testing"
 
 func TestSelf(t *testing.T) {
-	t0 := time.Now()
 	if err := SelfTest(); err != nil {
 		t.Fatal(err)
 	}
-	t.Logf("selftest %v", time.Since(t0))
-}
-
-func TestSpeed(t *testing.T) {
-	k := new(big.Int).Sub(N, big.NewInt(12345))
-	t0 := time.Now()
-	for i := 0; i < 10; i++ {
-		P1.Mul(k)
-	}
-	t.Logf("G1 mul %v", time.Since(t0)/10)
-	t0 = time.Now()
-	for i := 0; i < 10; i++ {
-		P2.Mul(k)
-	}
-	t.Logf("G2 mul %v", time.Since(t0)/10)
-	a, _ := Fp12FromBytes(Hex(PairA))
-	t0 = time.Now()
-	for i := 0; i < 10; i++ {
-		a.Exp(k)
-	}
-	t.Logf("Fp12 exp %v", time.Since(t0)/10)
-	t0 = time.Now()
-	a.Exp(FinalExponent())
-	t.Logf("Fp12 final exp %v", time.Since(t0))
 }
